@@ -47,6 +47,8 @@ use compio_driver::{
 use hx_common::{Case, Exec, catch};
 use rustix::net::{RecvFlags, SendFlags};
 
+pub mod multifd;
+
 pub const CHUNK: usize = 4;
 pub const ZC_LEN: usize = 5;
 const CANARY: u64 = 0x5AFE_C0DE_D00D_F00D;
@@ -1682,8 +1684,8 @@ pub fn exec_isolated(case: &Case) -> Exec {
             while ex.out.len() < case.lines.len() {
                 ex.out.push(if hung { "hang".into() } else { "crash".into() });
             }
-            let poll_cancel = case.lines.first().map(|l| l.starts_with("cfg poll")).unwrap_or(false)
-                && case.lines.iter().any(|l| l.starts_with("cancel") || l.starts_with("tcancel") || l.starts_with("ccancel"));
+            let poll_cancel = case.lines.first().map(|l| l.starts_with("cfg poll") || l.starts_with("mfd poll")).unwrap_or(false)
+                && case.lines.iter().any(|l| l.starts_with("cancel") || l.starts_with("tcancel") || l.starts_with("ccancel") || l.starts_with("mcancel"));
             let sig = if hung { "C01:hang" } else if poll_cancel { "C01:stale-poller-key" } else { "C01:crash" };
             ex.fail(
                 sig,
@@ -1705,6 +1707,10 @@ pub fn exec_case_streaming(
     nontrivial: impl Fn(&[String], &[String]) -> bool,
     emit: &mut dyn FnMut(&str),
 ) -> Exec {
+    if case.lines.first().map(|l| l.starts_with("mfd ")).unwrap_or(false) {
+        // multi-descriptor case (Splice): its own small world, see keylife/multifd.rs
+        return multifd::exec_case(case, emit);
+    }
     let mut ex = Exec::new();
     let mut w = World::new();
     for l in &case.lines {
@@ -1770,6 +1776,44 @@ pub mod rt {
         }
     }
 
+    /// the same wait through the other two submit flavours (C05-4b): `e` = `submit(op).with_extra()`, `m` = the multishot
+    /// stream `submit_multi(AcceptMulti)` on a listener nobody connects to (first item)
+    async fn recv_fl(fd: Arc<OwnedFd>, limit: Duration, fl: char) -> String {
+        use futures_util::StreamExt;
+        let show = |res: compio_buf::BufResult<usize, ()>| {
+            if res.is_cancelled() {
+                "c".to_string()
+            } else {
+                match res.0 {
+                    Ok(n) => format!("ok:{n}"),
+                    Err(e) => format!("e:{}", e.raw_os_error().unwrap_or(0)),
+                }
+            }
+        };
+        match fl {
+            'e' => {
+                let op = Recv::new(fd, Vec::with_capacity(4), RecvFlags::empty());
+                match timeout(limit, compio_runtime::submit(op).with_extra()).await {
+                    Err(_) => "t".into(),
+                    Ok((res, _extra)) => show(compio_buf::BufResult(res.0, ())),
+                }
+            }
+            'm' => {
+                use std::os::linux::net::SocketAddrExt as _;
+                let l = std::os::unix::net::UnixListener::bind_addr(&std::os::unix::net::SocketAddr::from_abstract_name(format!("hx-c05-{}-{:p}", std::process::id(), Arc::as_ptr(&fd)).as_bytes()).unwrap()).unwrap();
+                l.set_nonblocking(true).unwrap();
+                let lfd: Arc<OwnedFd> = Arc::new(l.into());
+                let mut st = compio_runtime::submit_multi(compio_driver::op::AcceptMulti::new(lfd));
+                match timeout(limit, st.next()).await {
+                    Err(_) => "t".into(),
+                    Ok(None) => "end".into(),
+                    Ok(Some(res)) => show(compio_buf::BufResult(res.0, ())),
+                }
+            }
+            _ => recv(fd, limit).await,
+        }
+    }
+
     pub fn run_token_case(ex: &mut Exec, drv: DriverType, cap: u32, steps: &str, neighbour: bool, nest: &str) -> String {
         if nest.chars().filter(|c| *c == 'c').count() != 1 || nest.chars().any(|c| c != 'c' && c != 'p') {
             return "bad-op".into();
@@ -1826,18 +1870,19 @@ pub mod rt {
                     let mut fired_at: Vec<bool> = vec![];
                     for (i, st) in steps.iter().enumerate() {
                         match st.as_str() {
-                            "r" => {
+                            "r" | "e" | "m" => {
                                 let was = fired.get();
                                 if !was {
                                     req.set(true);
                                 }
                                 fired_at.push(was);
-                                outs.push(recv(socks[i].clone(), Duration::from_millis(400)).await);
+                                outs.push(recv_fl(socks[i].clone(), Duration::from_millis(400), st.chars().next().unwrap()).await);
                             }
-                            "k" => {
+                            "k" | "E" | "M" => {
                                 let was = fired.get();
                                 fired_at.push(was);
-                                outs.push(recv(socks[i].clone(), Duration::from_millis(if was { 400 } else { 15 })).await);
+                                let fl = match st.as_str() { "E" => 'e', "M" => 'm', _ => 'r' };
+                                outs.push(recv_fl(socks[i].clone(), Duration::from_millis(if was { 400 } else { 15 }), fl).await);
                             }
                             "d" => {
                                 fired_at.push(false);
@@ -1882,7 +1927,7 @@ pub mod rt {
         });
         drop(keep);
         // monitors (implementation only)
-        let op_steps: Vec<&String> = steps.iter().filter(|s| matches!(s.as_str(), "r" | "k" | "d")).collect();
+        let op_steps: Vec<&String> = steps.iter().filter(|s| matches!(s.as_str(), "r" | "k" | "d" | "e" | "m" | "E" | "M")).collect();
         for (j, st) in op_steps.iter().enumerate() {
             let (o, late) = (&outs[j], fired_at[j]);
             if st.as_str() != "d" && late && o != "c" {
@@ -1891,10 +1936,10 @@ pub mod rt {
                     format!("step {j} (`{st}`) of `{}` submitted a receive on a never-ready socket AFTER the token had fired; it must finish with a cancellation error at once, got `{o}` (400 ms watchdog)", steps.join(",")),
                 );
             }
-            if st.as_str() == "r" && !late && o != "c" {
+            if matches!(st.as_str(), "r" | "e" | "m") && !late && o != "c" {
                 ex.fail(
                     "C05:cancel-not-prompt",
-                    format!("step {j} (`r`) of `{}`: the token fired while the receive was in flight, got `{o}` instead of a cancellation error", steps.join(",")),
+                    format!("step {j} (`{st}`) of `{}`: the token fired while the receive was in flight, got `{o}` instead of a cancellation error", steps.join(",")),
                 );
             }
             if st.as_str() == "d" && o != "ok:4" {
@@ -1906,6 +1951,10 @@ pub mod rt {
         }
         ex.tag("rt:token-case");
         ex.tag(format!("rt:nest:{nest}"));
+        for (j, st) in op_steps.iter().enumerate() {
+            let fl = match st.as_str() { "e" | "E" => "with_extra", "m" | "M" => "multi", _ => "plain" };
+            ex.tag(format!("rt:flavour:{fl}:{}", if fired_at[j] { "late" } else { "early" }));
+        }
         format!("{} n:{nres}", outs.join(","))
     }
 }
